@@ -14,6 +14,7 @@ import (
 	"strconv"
 	"strings"
 	"sync"
+	"sync/atomic"
 	"time"
 )
 
@@ -66,6 +67,14 @@ func relaxQuery(q string) (string, bool) {
 }
 
 var cacheMu sync.Mutex
+
+// tmpSuffix makes the name of a query file unique to one solver call (process id + a counter): two obligations with the
+// same query text solved at the same time must not share (and delete) each other's file, nor may two gowp processes.
+var tmpSeq int64
+
+func tmpSuffix() string {
+	return "_" + itoa(os.Getpid()) + "_" + strconv.FormatInt(atomic.AddInt64(&tmpSeq, 1), 10)
+}
 
 func queryHash(q string) string {
 	h := sha256.Sum256([]byte(q))
@@ -154,7 +163,7 @@ func solveOne(o *Obligation, cfg SolveCfg, w int) {
 	// stage A: drop every quantified assumption (sound: fewer assumptions); most safety obligations are decided here
 	if !o.Canary && !cfg.NoRelax {
 		if rq, changed := relaxQuery(o.Query); changed {
-			rf := filepath.Join(cfg.TmpDir, "r_"+h[:16]+".smt2")
+			rf := filepath.Join(cfg.TmpDir, "r_"+h[:16]+tmpSuffix()+".smt2")
 			if err := os.WriteFile(rf, []byte(rq), 0o644); err == nil {
 				t := cfg.TimeoutS
 				if t > 5 {
@@ -172,7 +181,7 @@ func solveOne(o *Obligation, cfg SolveCfg, w int) {
 			}
 		}
 	}
-	file := filepath.Join(cfg.TmpDir, "q_"+h[:16]+".smt2")
+	file := filepath.Join(cfg.TmpDir, "q_"+h[:16]+tmpSuffix()+".smt2")
 	if err := os.WriteFile(file, []byte(o.Query), 0o644); err != nil {
 		o.Result, o.Output = "error", err.Error()
 		return
@@ -185,7 +194,7 @@ func solveOne(o *Obligation, cfg SolveCfg, w int) {
 	if o.Canary {
 		// a contradiction among the quantifier-free assumptions shows up in the relaxation at once
 		if rq, changed := relaxQuery(o.Query); changed {
-			rf := filepath.Join(cfg.TmpDir, "c_"+h[:16]+".smt2")
+			rf := filepath.Join(cfg.TmpDir, "c_"+h[:16]+tmpSuffix()+".smt2")
 			if err := os.WriteFile(rf, []byte(rq), 0o644); err == nil {
 				res, _, el := runSolver(solvers[0], rf, 5)
 				os.Remove(rf)
@@ -243,7 +252,7 @@ func solveOne(o *Obligation, cfg SolveCfg, w int) {
 // modelFor re-runs a sat query with (get-model) on z3 to obtain a counterexample.
 func modelFor(o *Obligation, tmpDir string, timeoutS int) string {
 	q := strings.Replace(o.Query, "(check-sat)\n", "(check-sat)\n(get-model)\n", 1)
-	file := filepath.Join(tmpDir, "m_"+queryHash(q)[:16]+".smt2")
+	file := filepath.Join(tmpDir, "m_"+queryHash(q)[:16]+tmpSuffix()+".smt2")
 	os.MkdirAll(tmpDir, 0o755)
 	if err := os.WriteFile(file, []byte(q), 0o644); err != nil {
 		return ""
